@@ -11,6 +11,37 @@ use std::path::{Path, PathBuf};
 
 pub const VERIF_ROOT: &str = "/verif";
 
+thread_local! {
+    /// true while a cachelito operation runs under catch_unwind (its panics are data, not noise)
+    pub static IN_OP: std::cell::Cell<bool> = const { std::cell::Cell::new(false) };
+}
+
+/// Panic hook: silent for panics inside guarded cachelito operations, loud otherwise.
+pub fn install_panic_hook() {
+    let default = std::panic::take_hook();
+    std::panic::set_hook(Box::new(move |info| {
+        if !IN_OP.with(|q| q.get()) {
+            default(info);
+        }
+    }));
+}
+
+/// Run a cachelito operation, turning a panic into `Err(message)`.
+pub fn guarded<T>(f: impl FnOnce() -> T) -> Result<T, String> {
+    IN_OP.with(|q| q.set(true));
+    let r = std::panic::catch_unwind(std::panic::AssertUnwindSafe(f));
+    IN_OP.with(|q| q.set(false));
+    r.map_err(|p| {
+        if let Some(s) = p.downcast_ref::<&str>() {
+            s.to_string()
+        } else if let Some(s) = p.downcast_ref::<String>() {
+            s.clone()
+        } else {
+            "<non-string panic>".to_string()
+        }
+    })
+}
+
 #[derive(Clone, Copy, Debug, PartialEq, Eq)]
 pub enum Tier {
     Quick,
